@@ -8,6 +8,7 @@ import S2T.Lemmas.AesKatCbc192
 import S2T.Lemmas.AesKatCbc256
 import S2T.Gen.Aes
 import S2T.Props.C20_Src
+import S2T.Props.C20_Reentrant
 /-!
 # C20 — the built-in AES equals FIPS-197 AES in ECB/CBC for every key and block
 
